@@ -3,6 +3,7 @@ package main
 import (
 	stdecdsa "crypto/ecdsa"
 	"crypto/elliptic"
+	crand "crypto/rand"
 	"crypto/sha512"
 	"encoding/hex"
 	"fmt"
@@ -325,6 +326,29 @@ func runC06(c *h.Ctx) {
 			v.sig = rnd(c, 96)
 			v.key = r2.RequestKey
 			doVerifyRequest(c, "ciphertext-length-limits", v)
+			if n > 65535 {
+				// ... and signatures, by the correctly blinded key, over what a careless encoder would produce for such a
+				// request: nothing at all, or the message with the length prefix wrapped modulo 2^16
+				m := c.Model("ecdsa_blind_exp", []byte{3}, secret, blind, ctxClientBlind)
+				bsk := &stdecdsa.PrivateKey{D: new(big.Int).SetBytes(m[1])}
+				bsk.Curve = elliptic.P384()
+				bsk.X, bsk.Y = elliptic.P384().ScalarBaseMult(m[1])
+				v = base
+				v.enc = rnd(c, n)
+				wrapped := cat(u16b(3), v.key, v.nkid, u16b(uint16(n)), v.enc)
+				for _, msg := range [][]byte{nil, wrapped, cat(u16b(3), v.key, v.nkid)} {
+					d := sha512.Sum384(msg)
+					rr, ss, err := stdecdsa.Sign(crand.Reader, bsk, d[:])
+					if err != nil {
+						continue
+					}
+					sg := make([]byte, 96)
+					rr.FillBytes(sg[:48])
+					ss.FillBytes(sg[48:])
+					v.sig = sg
+					doVerifyRequest(c, "ciphertext-length-limits:signed-over-a-degenerate-message", v)
+				}
+			}
 		}
 		// history leg: the same requests put to ONE long-lived attester, each refused or malformed request followed
 		// by an honest one — a verdict must depend on the request alone, never on what was asked before
